@@ -176,8 +176,14 @@ def run_property(prop, tier, seed, replay_file=None):
         behs = r["behaviours"]
         cap = opts.get("cap", 1500 if tier == "quick" else 20000)
         if len(behs) > cap:
+            # half of the budget goes to the behaviours that combine the most kinds of operations (the
+            # shapes a uniform sample meets least often), the other half is a uniform sample of the rest
             rnd = random.Random(seed)
-            behs = rnd.sample(behs, cap)
+            kinds = lambda b: len({(x.get("op"), x.get("smp"), x.get("multi")) for x in b["steps"] if x.get("ev") == "call"})
+            order = sorted(range(len(behs)), key=lambda i: (-kinds(behs[i]), -len(behs[i]["steps"]), i))
+            rich = order[:cap // 2]
+            rest = rnd.sample(order[cap // 2:], cap - len(rich))
+            behs = [behs[i] for i in sorted(rich + rest)]
         # by default two random schedules for each of (up to) 150 programs of an instance in which collector
         # cycles interleave with calls: the model prints one behaviour per terminal state, which keeps one
         # schedule of the many that end in the same state (DESIGN.md section 14)
